@@ -668,6 +668,9 @@ def writeBoth (cx : Ctx) (w : World) (r : Nat) (pos leaf tag : Nat) : World × E
     | none => (rs, {})
   ({ w with regs := setReg w.regs r c', rows := setReg w.rows r rs' }, evI, evS, made)
 
+/-- the order of the harness payloads: leaf `j` of an element (id = `tag * 8 + j`) is ordered by bit `j % 5` of the tag -/
+def okey (id : Nat) : Nat := ((id / 8) >>> ((id % 8) % 5)) % 2
+
 def lexLe : List Nat → List Nat → Bool
   | [], _ => true
   | _ :: _, [] => false
@@ -920,7 +923,7 @@ def stepIter (cx : Ctx) (w : World) (ws : List String) : Option StepOut :=
           let cols := c.leaves
           let mcols := cx.maskCols cols
           let key (p : Nat) : Nat := ((cols.getD kl []).getD p 0 / 8) % modulus
-          let row (p : Nat) : List Nat := mcols.map (fun l => l.getD p 0)
+          let row (p : Nat) : List Nat := mcols.map (fun l => okey (l.getD p 0))
           let le (p q : Nat) : Bool := if natural then lexLe (row p) (row q) else key p ≤ key q
           -- `permutation.sort_by(…)` on `0..len`, then every field gathered by it
           let perm := (List.range' v.s v.l).mergeSort le
@@ -930,7 +933,7 @@ def stepIter (cx : Ctx) (w : World) (ws : List String) : Option StepOut :=
       let oS : Obs × List Elem := match winS with
         | .ok v =>
           let key (e : Elem) : Nat := (e.ids.getD kl 0 / 8) % modulus
-          let mrow (e : Elem) : List Nat := (e.ids.zip cx.kinds).map (fun p => if p.2 == 'z' then 0 else p.1)
+          let mrow (e : Elem) : List Nat := (e.ids.zip cx.kinds).map (fun p => if p.2 == 'z' then 0 else okey p.1)
           let le (a b : Elem) : Bool := if natural then lexLe (mrow a) (mrow b) else key a ≤ key b
           let seg := (rs.drop v.s).take v.l
           ({ status := "ok" }, rs.take v.s ++ seg.mergeSort le ++ rs.drop (v.s + v.l))
